@@ -2138,7 +2138,7 @@ class BSP:
             for face in faces:
                 if face.orig_face is not None and get_orig_face is not None:
                     orig_ind = get_orig_face(face.orig_face)
-                    hammer_ids.append(face.hammer_id or 0)  # Dummy value if not set.
+                    hammer_ids.append(face.hammer_id)
                 else:
                     orig_ind = -1
                 if face.texinfo is not None:
@@ -2170,7 +2170,14 @@ class BSP:
                     face.smoothing_groups,
                 ))
             if hammer_ids:
-                self.lumps[BSP_LUMPS.FACEIDS].data = write_array(self.lump_layout['FACEID'], hammer_ids)
+                if all(hammer_id is None for hammer_id in hammer_ids):
+                    # The ID lump is often stripped from compiled maps, don't invent one if no face has an ID.
+                    self.lumps[BSP_LUMPS.FACEIDS].data = b''
+                else:
+                    self.lumps[BSP_LUMPS.FACEIDS].data = write_array(
+                        self.lump_layout['FACEID'],
+                        [hammer_id or 0 for hammer_id in hammer_ids],  # Dummy value if not set.
+                    )
         return face_buf.getvalue()
 
     def _lmp_read_orig_faces(self, data: bytes) -> Iterator['Face']:
